@@ -72,8 +72,8 @@ macro_rules! huffman_harness {
             match d { Ok(x) => assert!(x == s && used == lp, "C15: decoder does not invert the encoder (prefix-freeness)"), Err(_) => assert!(false, "C15: decoding a codeword failed") }
             // out of alphabet
             let t: usize = any(); assume(t >= N);
-            assert!(enc.encode_symbol_suffix(t, |_b| Result::<(), Infallible>::Ok(())).is_err(), "C15: symbol outside the alphabet accepted");
-            assert!(enc.encode_symbol_prefix(t, |_b| Result::<(), Infallible>::Ok(())).is_err(), "C15: symbol outside the alphabet accepted (prefix form)");
+            assert!(enc.encode_symbol_suffix(t, |_b| Result::<(), Infallible>::Ok(())).is_err(), "C15/C09: symbol outside the alphabet accepted");
+            assert!(enc.encode_symbol_prefix(t, |_b| Result::<(), Infallible>::Ok(())).is_err(), "C15/C09: symbol outside the alphabet accepted (prefix form)");
             cover!(w[0] == w[N - 1], "tie or single symbol");
         }
     };
